@@ -166,4 +166,4 @@ def nan_key(cfg):
 
 def describe(cfg):
     keys = ("sizes", "E", "k", "support", "pattern", "fd", "mask", "repr", "hermitian", "vset", "total")
-    return {k_: cfg.get(k_) for k_ in keys}
+    return {k_: cfg.get(k_) for k_ in keys} | ({"patterns": cfg["patterns"]} if cfg.get("patterns") else {})
